@@ -40,7 +40,7 @@ def run(tier, seed, replay=None):
         for i in range(n):
             cases.append(tickgen.gen_case(r.rng, local=0.9, safe=True, extra="maxassign=243 reps=1 threads=1,2,4,8,32"))
         for i in range(8 if tier == "quick" else 100):
-            cases.append(tickgen.gen_case(r.rng, local=0.5, extra="maxassign=81 reps=2 threads=1,3,16"))
+            cases.append(tickgen.gen_case(r.rng, local=0.5, extra="maxassign=81 reps=2 threads=1,3,16" + (" descent=1" if i % 2 else "")))
         for i in range(30 if tier == "quick" else 240):
             cases.append(tickgen.gen_case(r.rng, local=0.9, safe=True, tail_shards=True, divergent=(i % 3 != 0),
                                           extra="maxassign=81 reps=1 threads=1,2,3"))
